@@ -147,6 +147,22 @@ def seeded_entries():
 seeded_entries()
 
 
+def twin_entries():
+    """behaviour-preserving rewrites written by independent sub-agents (selftest/twins/, equivalence checked numerically by their
+    authors against the unchanged package): every listed check must stay silent; for the two documented analysis limits the exit
+    code may be 2 (analysis error) but never 1"""
+    ip = os.path.join(VERIF, 'selftest', 'twins', 'index.json')
+    if not os.path.exists(ip):
+        return
+    for t in json.load(open(ip)):
+        for prop in t['props']:
+            M.append(dict(id=f"{t['id']}@{prop}", prop=prop, patch=os.path.join(VERIF, t['patch']), expect=None,
+                          limit=(t.get('expect') == 'silent-or-analysis-error')))
+
+
+twin_entries()
+
+
 def run_one(m, keep=False):
     tmp = tempfile.mkdtemp(prefix='pv_selftest_')
     try:
@@ -181,7 +197,7 @@ def run_one(m, keep=False):
         out = p.stdout + p.stderr
         vio = [l for l in out.splitlines() if l.startswith('  rule=')]
         if m['expect'] is None:
-            ok = p.returncode == 0
+            ok = p.returncode == 0 or (m.get('limit') and p.returncode == 2)
             return m, 'OK' if ok else 'FALSE-ALARM', f"exit {p.returncode}; " + '; '.join(v.strip()[:150] for v in vio[:3]) + (out[-300:] if p.returncode == 2 else '')
         hit = [v for v in vio if m['expect'] in v]
         if p.returncode == 1 and hit:
